@@ -694,6 +694,19 @@ func mergeStates(base int, states []*State) *State {
 					v = scalarV(types.Typ[types.Int], mkInt(sortInt, 0))
 					has = true
 				}
+				if !has && get(live[0]) != nil && !strings.HasPrefix(k, "calls:") {
+					// ghost bookkeeping without a Go type (sort witnesses, AEAD trace): keep only if present everywhere
+					untyped := false
+					for _, s2 := range live {
+						if v2, ok := get(s2)[k]; ok && v2.T == nil {
+							untyped = true
+						}
+					}
+					if untyped {
+						vals = nil
+						break
+					}
+				}
 				if !has {
 					// lazily materialise with the deterministic initial name
 					var t types.Type
@@ -706,11 +719,21 @@ func mergeStates(base int, states []*State) *State {
 				}
 				vals = append(vals, v)
 			}
+			if vals == nil {
+				set(k, Value{})
+				continue
+			}
 			set(k, mergeValues(conds, vals))
 		}
 	}
 	mergeMaps(func(s *State) map[string]Value { return s.glob }, func(k string, v Value) { out.glob[k] = v })
-	mergeMaps(func(s *State) map[string]Value { return s.ghost }, func(k string, v Value) { out.ghost[k] = v })
+	mergeMaps(func(s *State) map[string]Value { return s.ghost }, func(k string, v Value) {
+		if v.L == nil {
+			delete(out.ghost, k)
+			return
+		}
+		out.ghost[k] = v
+	})
 	// heap
 	// every key ever touched anywhere (keys are materialised lazily, possibly only in discarded clones)
 	hkeys := map[string]bool{}
